@@ -236,7 +236,7 @@ def _scribble_on(x):
 
 
 def _make_sim_functions(module_name):
-    def sim_probe(inp, tinp=None, zinp=None, lat=None, lon=None, tag=0):
+    def sim_probe(inp, tinp=None, zinp=None, lat=None, lon=None, tag=0, tidy=False):
         PROBE_LOG.append(
             {
                 "fn": "sim_probe",
@@ -250,7 +250,13 @@ def _make_sim_functions(module_name):
                 "lon": anyarray_to_json(lon),
             },
         )
-        return probe_flags(inp if not hasattr(inp, "to_numpy") else inp.to_numpy(), tag)
+        flags = probe_flags(inp if not hasattr(inp, "to_numpy") else inp.to_numpy(), tag)
+        if tidy:
+            # a user test that "normalises" the axes it was handed, in place (it owns its arguments, does it not?)
+            for a in (tinp, zinp, lat, lon):
+                if a is not None:
+                    _scribble_on(a)
+        return flags
 
     def sim_fault(  # noqa: PLR0913
         inp,
